@@ -52,7 +52,7 @@ def cases(draw):
             loss["filters"] = [f if f != "hp" else "demean" for f in loss["filters"]]
         if lk == "minkowski":
             loss["p"] = draw(st.sampled_from([1, 2]))
-    model = draw(st.sampled_from(["gauss", "ar1", "poly", "extreme", "extreme", "negextreme"]))
+    model = draw(st.sampled_from(["gauss", "ar1", "poly", "extreme", "extreme", "negextreme", "mutating"]))
     sim_length = None if lk == "minkowski" or draw(st.booleans()) else draw(st.integers(8, 20))
     cfg = {"space": sp, "lineup": draw(gen.lineup_spec(kinds=gen.CHEAP, max_len=6, max_bs=5)), "loss": loss, "model": model,
            "D": d_out, "N": n, "E": draw(st.sampled_from([1, 2, 2, 3, 4])), "seed": draw(st.integers(0, 2**32 - 2)),
@@ -69,9 +69,8 @@ def check_history(ctx: Ctx, case):
     log = {"model": [], "samplers": []}
 
     def model(theta, n, seed):
-        out = pure(theta, n, seed)
-        log["model"].append((np.array(theta, copy=True), n, seed))
-        return out
+        log["model"].append((np.array(theta, copy=True), n, seed))   # copied before the model can scribble on its argument
+        return pure(theta, n, seed)
     model.__name__ = pure.__name__
 
     loss = _stub_loss(cfg["loss"]["kind"] == "signed_stub") if cfg["loss"]["kind"].endswith("stub") else calib.make_loss(cfg)
@@ -195,7 +194,7 @@ def check_history(ctx: Ctx, case):
                     ctx.fail("C02/model-args", f"row {i} member {e}: model was run at {th.tolist()} with length {nn}; the row "
                              f"holds {cur['params_samp'][i].tolist()}, configured length {N}", sub, case)
                     return
-                if not calib.same_values(pure(th, nn, sd), cur["series_samp"][i, e]):
+                if not calib.same_values(pure(th.copy(), nn, sd), cur["series_samp"][i, e]):
                     count(False)
                     ctx.fail("C02/series-not-from-row", f"row {i} member {e}: stored series is not the model output for that "
                              "row's parameter vector and seed", sub, case)
